@@ -32,6 +32,7 @@ def fault_job(args):
     root = os.path.join(base, "f%d" % jid)
     d = os.path.join(root, "ds")
     snap = os.path.join(root, "snap")
+    shutil.rmtree(root, ignore_errors=True)      # a re-run of this job (after a time-out) starts clean
     os.makedirs(root)
     out = {"jid": jid, "runs": [], "traces": [], "evals": 0}
     try:
